@@ -12,7 +12,7 @@ import (
 
 func init() {
 	Register("C15", "Decides three structural necessary conditions of 'what follows never moves the boundary' for the schema scanner's Len(): (boundary) once the root value is complete (state stateEndTop, empty lexeme stack, no annotation open, length mode) every byte other than a blank, `/` and `#` emits the EndTop lexeme and nothing else; (stop) Length() stops reading at the EndTop lexeme; (arith) the candidate length is End()+1 after a lexeme and End() or End()-1 at EndTop (the lexeme lies on the first trailing byte; the property only speaks of trailing text on a new line, so at least one blank precedes it), after which exactly SP, TAB, LF, CR are dropped from the end. (pairing) every dedicated callee of the return-to-step stack (escape, comment states) leaves by a pop, so the scanner is back in stateEndTop when the root value and its annotation end. Does NOT decide prefix acceptance, idempotence of Len on the prefix, equality of ASTs, nor the values of the lexeme positions.",
-		annoEndRule("C15.annoend"), c15boundary, c15stop, c15arith, c15newline, c15lineend, asciiBlankRule("C15.asciiblank"), sameFileRule("C15.samefile"), bytewiseRule("C15.bytewise"), eofNewlineRule("C15.eofnl"), blockCommentEOFRule("C15.blockeof"), pairingRule("C15.pairing", []string{"notations/jschema/scanner"}))
+		annoEndRule("C15.annoend"), gluedRule("C15.glued"), c15boundary, c15stop, c15arith, c15newline, c15lineend, asciiBlankRule("C15.asciiblank"), sameFileRule("C15.samefile"), bytewiseRule("C15.bytewise"), eofNewlineRule("C15.eofnl"), blockCommentEOFRule("C15.blockeof"), pairingRule("C15.pairing", []string{"notations/jschema/scanner"}))
 }
 
 func c15boundary(c *core.Ctx) {
